@@ -1123,6 +1123,16 @@ func (r *runner) Do(op []string) (string, bool) {
 		if err != nil {
 			return "err", true
 		}
+		// MarshalMsg ranges over Go maps (the metadata table, memoizedFields): the order in which the
+		// re-encoded event carries its fields is the implementation's choice, and the peer reads them
+		// in that order.  Tell the oracle which order it was.
+		if wn, derr := decodeMsgp(b); derr == nil && wn.t == 'm' {
+			ks := make([]string, len(wn.keys))
+			for i, k := range wn.keys {
+				ks[i] = kit.Enc(k.s)
+			}
+			kit.Ext("worder %s", strings.Join(ks, ","))
+		}
 		keep := r.cur
 		o, p := r.batchOutcome(r.peer, msgpBatch(b), "application/msgpack")
 		r.cur = keep
